@@ -458,13 +458,14 @@ struct C08 : Driver {
   const char *prop() const override { return "C08"; }
   const char *level() const override { return "exploration"; }
   uint64_t ncases(int tier) const override { return tier ? 20000 : 1800; }
-  const char *variants(int tier) const override { return tier ? "asan asan-ndebug" : "asan asan-ndebug"; }
+  const char *variants(int tier) const override { return tier ? "asan asan-ndebug vg/40" : "asan asan-ndebug vg/12"; }   // vg: plain build under valgrind memcheck (uninitialised-value decisions, uninitialised output bytes)
   std::string rule() const override {
     return "case = compression+decompression, decompression of valid/defective/truncated/planted streams with input block sizes down to 4 bytes and output buffers down to 1 byte, or -cdf copy, any -n, seeded schedule, "
-           "executed in the AddressSanitizer+UndefinedBehaviorSanitizer build (assertions on, and again with -DNDEBUG); fresh heap blocks are filled with a per-run junk byte; "
-           "oracle: zero sanitizer reports (a report ends the worker with exit code 77 and is attributed to the case) and intact heap canaries. distinct_nontrivial = distinct (interleaving hash, input digest) pairs";
+           "executed in the AddressSanitizer+UndefinedBehaviorSanitizer build (assertions on, and again with -DNDEBUG) and, for a fraction of the cases, as the plain build under valgrind memcheck (variant vg: fresh heap blocks and recycled "
+           "thread stacks are marked undefined, every buffer handed to write() is checked for definedness); fresh heap blocks are filled with a per-run junk byte in the native variants; "
+           "oracle: zero sanitizer/memcheck reports (a report ends the worker with exit code 77 and is attributed to the case) and intact heap canaries. distinct_nontrivial = distinct (interleaving hash, input digest) pairs";
   }
-  std::vector<std::string> assumptions() const override { return {"uninitialised-value decisions are only detected indirectly (junk-filled heap makes them change results, which C03/C09 compare); no MSan/valgrind pass is part of this check"}; }
+  std::vector<std::string> assumptions() const override { return {"uninitialised-value decisions are detected by valgrind memcheck on the vg share of the cases only (about 1 case in 12 quick, 1 in 40 thorough; memcheck is 20-50x slower); the other cases see them only indirectly through junk-filled heap blocks (C03/C09 compare results)"}; }
   Case gen(uint64_t seed, int tier) const override { return gen_mixed(seed, tier, "C08", false); }
   Verdict eval(const Case &c, Ctx &ctx) const override { return eval_mixed(c, ctx, true); }
 };
